@@ -280,6 +280,8 @@ def _decode_event(ctx, ev, scheme, itype):
     m = None
     if scheme == "device_instance":
         m = event_map(ctx)
+        # (the application saw the frame once before it learned the instance's type; the map object is the same)
+        call(C.from_frame, ev.frame, dev_inst_map=m)
         m.add_type(short_address=ev.short_address.address, instance_number=ev.instance_number,
                    instance_type=itype)
     return call(C.from_frame, ev.frame, dev_inst_map=m)
